@@ -57,7 +57,7 @@ def case_b(draw):
     import random
 
     rnd = random.Random(draw(st.integers(0, 2**30)))
-    b = gen_graph._Builder(draw, rnd, ["s", "utg"], draw(st.sampled_from([0, 8, 97])), 7)
+    b = gen_graph._Builder(draw, rnd, [draw(st.sampled_from(["s", "s", "utg", "Name", "S", "L"])), "utg"], draw(st.sampled_from([0, 8, 97])), 7)
     b.cycles = draw(st.booleans())
     nchrom = draw(st.integers(1, 3))
     names = draw(st.permutations(["chr1", "chr2", "chrX", "chr1.mat", "chr1.pat"]))[:nchrom]
@@ -83,8 +83,10 @@ def case_b(draw):
             k_ = draw(st.integers(0, len(d_["seq"])))
             d_["seq"] = d_["seq"][:k_] + d_["seq"][k_:].lower()
     # one graph in six comes without sequences ('*' and the LN tag); --with-sequence then has nothing but '*' to write
+    ov_ = draw(st.integers(0, 29))
     text = gen_graph.gfa_text(g, with_seq=draw(st.integers(0, 5)) > 0, extra_tags=extra, link_tags=ltags,
-                              order_seed=draw(st.integers(0, 999)), header=draw(st.booleans()))
+                              order_seed=draw(st.integers(0, 999)), header=draw(st.booleans()),
+                              overlap_seed=ov_ if ov_ < 10 else None)  # a third of the graphs declare non-zero overlaps
     if draw(st.integers(0, 2)) == 0:
         # LN is optional when the sequence is given: drop it from some S lines
         out_ = []
